@@ -138,12 +138,22 @@ func setupIter(s iterScript) *iterEnv {
 	e.ctx, e.cancel = cancellable(context.Background(), uint64(s.resultID+len(s.rows)))
 	f.rowsFor = func(sql string, _ []driver.NamedValue) *rowsScript {
 		rs := &rowsScript{Cols: []string{"_sqlair_0", "_sqlair_1", "_sqlair_2"}, FailAt: -1}
+		// a third of the scripts have plain result columns next to the generated ones (their values are of
+		// no concern to sqlair, whatever their Go type)
+		foreign := (s.resultID+len(s.rows))%3 == 0
+		if foreign {
+			rs.Cols = []string{"note", "_sqlair_0", "_sqlair_1", "extra", "_sqlair_2"}
+		}
 		for _, r := range s.rows {
 			var id driver.Value = int64(r.id)
 			if !r.ok {
 				id = "notanint"
 			}
-			rs.Rows = append(rs.Rows, []driver.Value{id, "n", int64(7)})
+			if foreign {
+				rs.Rows = append(rs.Rows, []driver.Value{[]string{"a", "b"}, id, "n", map[string]int{"k": 1}, int64(7)})
+			} else {
+				rs.Rows = append(rs.Rows, []driver.Value{id, "n", int64(7)})
+			}
 		}
 		if s.failK >= 0 {
 			rs.FailAt = s.failK
